@@ -168,7 +168,7 @@ func initAllowed(path string) bool {
 		return true
 	}
 	switch path {
-	case "io", "bytes", "encoding/binary", "context", "encoding/hex",
+	case "io", "bytes", "encoding/binary", "context", "encoding/hex", "unicode/utf8", "strconv", "math/bits",
 		"github.com/satori/go.uuid",
 		"github.com/coreos/etcd/raft", "github.com/coreos/etcd/raft/raftpb",
 		"github.com/dgraph-io/badger/v2":
